@@ -317,6 +317,9 @@ def run(ctx: Ctx):
            "calc_full_log_probs is not calc_full_log_probs_chunked(hist, prev, 1): 'all at once' and 'in chunks' "
            "would be different code", rel, full.line, sample=u(rets[0].value) if rets else None)
 
+    # ---- S5' the chunked windows: element (i, r, b) of the strided view is hist[t + r - Nm1 + i, b] -------------------
+    _strided_windows(ctx, rel)
+
     # ---- S6 unsigned numpy scalars ------------------------------------------------------------------------
     ni = NarrowInt(build)
     fs = ni.findings()
@@ -341,7 +344,9 @@ def run(ctx: Ctx):
             "definitions of the sos shift agree, load_state_dict/_infer use the order>1 instance of U; (S4) on every "
             "non-raising path load_state_dict assigns the three derived attributes and re-allocates the four "
             "registered buffers (= required keys) from the same-named incoming tensors before delegating; (S5) "
-            "calc_full_log_probs is the chunk-size-1 instance of the chunked code; (S6) no possibly-unsigned NumPy "
+            "calc_full_log_probs is the chunk-size-1 instance of the chunked code, and element (i, j) of the chunked code's "
+            "strided history window is hist[t + j // B - Nm1 + i, j % B] relative to hist's own storage offset, with "
+            "min(T, N - 1) rows and min(chunk, T + 1 - t) * B columns [F22 repaired]; (S6) no possibly-unsigned NumPy "
             "scalar is decremented and sign-tested without widening [F14, repaired]. NOT decided: the back-off "
             "recursion, trie layout, strided evaluation (index arithmetic over runtime tables)."),
         decided=["S1", "S2", "S3", "S4", "S5", "S6"],
@@ -350,10 +355,87 @@ def run(ctx: Ctx):
     )
 
 
+def _strided_windows(ctx: Ctx, rel: str):
+    """calc_full_log_probs_chunked scores T_rest time steps at once through `hist.as_strided((Nm1, T_rest * B), (B, 1),
+    off)`: column r * B + b, row i of the view must be the token that the one-step code reads for time t + r, i.e.
+    hist[t + r - Nm1 + i, b], whose offset from hist's own start is (t + r - Nm1 + i) * B + b."""
+    from sa import minmax as MM
+    col, pkg = ctx.col, ctx.pkg
+    f = pkg.func(f"{MOD}::{CLS}.calc_full_log_probs_chunked")
+    rd = ReachingDefs(f.node)
+    views = [c for c in own_calls(f.node) if isinstance(c.func, ast.Attribute) and c.func.attr == "as_strided" and len(c.args) == 3]
+    if len(views) != 1:
+        raise AnalysisError("C06: calc_full_log_probs_chunked no longer builds exactly one strided view")
+    v = views[0]
+    recv = u(v.func.value)
+
+    def leaf_of_def(d):
+        if d.kind == "for":
+            return "t"
+        if d.kind == "param" and d.name == f.params[-1].name:
+            return "C"
+        if d.kind == "unpack" and isinstance(d.value, ast.Attribute) and d.value.attr == "shape" and d.slot:
+            return ("T", "B")[d.slot[0]] if d.slot[0] < 2 else None
+        return None
+
+    def leaf_of_expr(e):
+        if isinstance(e, ast.Call) and isinstance(e.func, ast.Attribute) and e.func.attr == "storage_offset" and u(e.func.value) == recv:
+            return "OFF0"
+        if isinstance(e, ast.Attribute) and u(e) == "self.max_ngram":
+            return "N"
+        return None
+    ex = MM.Extractor(rd, leaf_of_def, leaf_of_expr)
+    size, stride, off = v.args
+    ok = isinstance(size, ast.Tuple) and isinstance(stride, ast.Tuple) and len(size.elts) == 2 and len(stride.elts) == 2
+    if not ok:
+        raise AnalysisError("C06: strided view is not 2-dimensional")
+    try:
+        s0, s1, o = ex.term(stride.elts[0]), ex.term(stride.elts[1]), ex.term(off)
+        n0, n1 = ex.term(size.elts[0]), ex.term(size.elts[1])
+    except MM.Unknown as e:
+        col.undecided(f"C06: strided view of calc_full_log_probs_chunked: {e}")
+        return
+    lin = ("add", ("add", o, ("mul", ("leaf", "i"), s0)), ("mul", ("leaf", "j"), s1))
+
+    def grid():
+        for N in (1, 2, 3, 4):
+            for T in range(0, 6):
+                Nm1 = min(T, N - 1)
+                for B in (1, 2, 3):
+                    for t in range(Nm1, T + 1):
+                        for i in range(0, max(Nm1, 1)):
+                            for j in range(0, 2 * B):
+                                for OFF0 in (0, 7):
+                                    for C in (1, 2, 5):
+                                        yield dict(N=N, T=T, B=B, t=t, i=i, j=j, OFF0=OFF0, C=C)
+
+    def want(vv):
+        Nm1 = min(vv["T"], vv["N"] - 1)
+        if vv["i"] >= Nm1:
+            return None
+        r, b = divmod(vv["j"], vv["B"])
+        return vv["OFF0"] + (vv["t"] + r - Nm1 + vv["i"]) * vv["B"] + b
+    env, g, w, n = MM.counterexample(lin, want, grid())
+    col.ob("G12", "S5", f"{rel}::{CLS}.calc_full_log_probs_chunked::strided-window-element", env is None and n > 0,
+           f"element (i, j) of the strided view lies at storage position `{MM.show(lin)[:200]}`; the history window of time "
+           f"t + j // B needs hist[t + j // B - Nm1 + i, j % B], i.e. storage_offset + (t + j // B - Nm1 + i) * B + j % B; "
+           f"they differ e.g. at {env}: {g} vs {w}", rel, v.lineno, sample=dict(term=MM.show(lin)[:200], grid_points=n))
+    env, g, w, n = MM.counterexample(n0, lambda vv: min(vv["T"], vv["N"] - 1), grid())
+    col.ob("G12", "S5", f"{rel}::{CLS}.calc_full_log_probs_chunked::strided-window-rows", env is None,
+           f"the view has `{MM.show(n0)}` rows; the one-step code reads min(T, N - 1) history rows", rel, v.lineno)
+    env, g, w, n = MM.counterexample(n1, lambda vv: min(vv["C"], vv["T"] + 1 - vv["t"]) * vv["B"], grid())
+    col.ob("G12", "S5", f"{rel}::{CLS}.calc_full_log_probs_chunked::strided-window-columns", env is None,
+           f"the view has `{MM.show(n1)}` columns; a chunk covers min(chunk_size, T + 1 - t) time steps of B sequences "
+           f"(differs at {env}: {g} vs {w})", rel, v.lineno)
+
+
 def _mutants():
     from selftest.mutate import Mutant as M
     L = "_lm.py"
     return [
+        M("window-stride-one-row-short", "_lm.py", "hist.as_strided((Nm1, T_rest * B), (B, 1), hist.storage_offset() + B * (t - Nm1))", "hist.as_strided((Nm1, T_rest * B), (B, 1), hist.storage_offset() + B * (t - Nm1 + 1))", "strided-window-element"),
+        M("window-strides-swapped", "_lm.py", "hist.as_strided((Nm1, T_rest * B), (B, 1), hist.storage_offset() + B * (t - Nm1))", "hist.as_strided((Nm1, T_rest * B), (1, B), hist.storage_offset() + B * (t - Nm1))", "strided-window-element"),
+        M("last-chunk-overruns", "_lm.py", "T_rest = min(chunk_size, T + 1 - t)", "T_rest = chunk_size", "strided-window-columns"),
         M("strided-view-absolute-offset", "_lm.py", "hist.storage_offset() + B * (t - Nm1)", "B * (t - Nm1)", "strided-view-offset-relative-to-receiver"),
         M("drop-int-widening", L, "parent = int(parents[prefix]) + last_start", "parent = parents[prefix] + last_start",
           "unsigned-scalar-decremented"),
